@@ -16,7 +16,7 @@ var idxAssume = []string{
 
 var metas = map[string]PropMeta{
 	"C01": {
-		Explanation: "PIPE-CLONE, LOST-UPDATE (rewriters), ENC-MAPKEY and ENC-CMP (rewriters and flatten.go), REF-EQ, ENC-FRAGSPLIT, ENC-CONSUMER, PIPE-REBASE, LOOPVAR-ADDR, REF-BASENAME, SYNC-RECORD. Each is a necessary condition: violating it changes the meaning of some bundle in W.",
+		Explanation: "PIPE-CLONE, LOST-UPDATE (rewriters), ENC-MAPKEY and ENC-CMP (rewriters and flatten.go), REF-EQ, ENC-FRAGSPLIT, ENC-CONSUMER, ENC-SUBSTR, PIPE-REBASE, LOOPVAR-ADDR, REF-BASENAME, SYNC-RECORD. Each is a necessary condition: violating it changes the meaning of some bundle in W.",
 		NotDecided:  []string{"bisimulation of the $ref-unfolded documents", "that a re-pointed $ref designates the same schema", "normalize.RebaseRef's path arithmetic", "OAIGen de-duplication", "that paths/operations/parameters are otherwise untouched"},
 		Assumptions: []string{"string encodings: N raw name, T pointer-escaped token, P joined tokens, K '#'+P, U URL-escaped K; signatures of jsonpointer.Escape/Unescape, path.Join/Base/Dir, url.PathUnescape, Ref.String as read from their sources; names contain no '%'"},
 	},
